@@ -9355,6 +9355,10 @@ class SVG(Group):
                         if s.viewbox.width is not None and s.viewbox.height is not None:
                             # A malformed viewBox establishes no user space: the viewport size stays in force.
                             width, height = s.viewbox.width, s.viewbox.height
+                    elif context is not None and (s.width == 0 or s.height == 0):
+                        # "A value of zero disables rendering of the element", viewBox or not.
+                        values[SVG_ATTR_DISPLAY] = SVG_VALUE_NONE
+                        continue
                     elif context is not None and (s.x != 0 or s.y != 0):
                         # A nested svg without a viewBox still places its viewport at x, y.
                         viewport_transform = "translate(%s, %s)" % (
